@@ -50,6 +50,9 @@ type wireConn struct {
 	in     [][]byte
 	remote string
 	closed bool // after Close nothing more reaches the peer: writes fail, a stalled write loses its second half
+	// delivered: an incoming piece has been handed to the reader; early[i]: wire record i was written before that
+	delivered bool
+	early     []bool
 }
 
 // stallConn is a socket whose FIRST write takes a long (real) time.
@@ -102,6 +105,7 @@ func (f *wireConn) Write(b []byte) (int, error) {
 	}
 	f.mu.Lock()
 	f.wire = append(f.wire, append([]byte{}, b...))
+	f.early = append(f.early, !f.delivered)
 	f.mu.Unlock()
 	return len(b), nil
 }
@@ -114,6 +118,7 @@ func (f *wireConn) Read(b []byte) (int, error) {
 	if len(f.in) == 0 {
 		return 0, timeoutError{}
 	}
+	f.delivered = true
 	n := copy(b, f.in[0])
 	if n == len(f.in[0]) {
 		f.in = f.in[1:]
@@ -278,7 +283,7 @@ func setupOn(ctx hap.Context, conn net.Conn, secret [32]byte) *hap.Connection {
 
 // setupTransport builds a real hc IP transport (not started: no network), registers conn in ITS context with a
 // real secure session and subscribes the session to the switch.
-func setupTransport(c *fw.Ctx, conn net.Conn) (*hap.Connection, *accessory.Switch, error) {
+func setupTransport(c *fw.Ctx, conn net.Conn, pending bool) (*hap.Connection, *accessory.Switch, error) {
 	sw := accessory.NewSwitch(accessory.Info{Name: "C08Switch"})
 	longChar = characteristic.NewString("F0D1")
 	longChar.Perms = characteristic.PermsAll()
@@ -299,6 +304,11 @@ func setupTransport(c *fw.Ctx, conn net.Conn) (*hap.Connection, *accessory.Switc
 	}
 	sess := ctx.GetSessionForConnection(conn)
 	sess.SetCryptographer(cs)
+	if pending {
+		// the connection has just completed pair-verify: the keys are there, the switch has not happened, and it has
+		// not subscribed to anything yet
+		return hc2, sw, nil
+	}
 	sess.Decrypter()
 	sess.Subscribe(sw.Switch.On.Characteristic)
 	sess.Subscribe(longChar.Characteristic)
@@ -430,7 +440,7 @@ func judgeFrom(secret [32]byte, wire [][]byte, want [][]byte, start uint64, clos
 // judgeSwitch: the wire of a connection that switches to encryption while writers are active. Every socket write is
 // either one of the payloads in plain text or frames; once a frame has been written no plain text follows; the
 // frames decrypt in order from counter 0 into whole payloads; every payload got out one way or the other.
-func judgeSwitch(wire [][]byte, want [][]byte) (sym, desc string) {
+func judgeSwitch(wire [][]byte, early []bool, want [][]byte) (sym, desc string) {
 	left := append([][]byte{}, want...)
 	take := func(p []byte) bool {
 		for i, w := range left {
@@ -446,6 +456,11 @@ func judgeSwitch(wire [][]byte, want [][]byte) (sym, desc string) {
 	for i, rec := range wire {
 		if !encrypted && take(rec) {
 			continue // a whole payload in plain text, before any frame
+		}
+		if i < len(early) && early[i] {
+			// nothing the controller encrypted has arrived yet: the session cannot have switched, so this — e.g. the
+			// response to pair-verify itself — has to go out in plain text
+			return "encrypted-before-switch", fmt.Sprintf("socket write %d went out as frames although none of the controller's encrypted bytes had arrived yet: the session was switched by something other than the connection's own read", i)
 		}
 		if encrypted {
 			for _, w := range want {
@@ -550,9 +565,9 @@ func execute(c *fw.Ctx, writers [][]int, prefix []int, bound int, prior int) []s
 	var conn *hap.Connection
 	var sw *accessory.Switch
 	if hasNotify(writers) {
-		fc.slow = true
+		fc.slow = !has(writers, switching)
 		var err error
-		conn, sw, err = setupTransport(c, fc)
+		conn, sw, err = setupTransport(c, fc, has(writers, switching))
 		if err != nil {
 			c.Infra("transport scenario: " + err.Error())
 			return nil
@@ -675,7 +690,7 @@ func execute(c *fw.Ctx, writers [][]int, prefix []int, bound int, prior int) []s
 	}
 	out := S.Run(prefix, bodies)
 	if sw != nil {
-		if has(writers, notify) {
+		if has(writers, notify) && !has(writers, switching) { // (a connection that has not switched has not subscribed)
 			want = append(want, notifyPayload(sw, true)) // the value is true now
 		}
 		if has(writers, notifyLong) {
@@ -703,7 +718,7 @@ func execute(c *fw.Ctx, writers [][]int, prefix []int, bound int, prior int) []s
 	}
 	c.Class(scen + ":" + wireOrder(fc.wire))
 	if has(writers, switching) {
-		if sym, desc := judgeSwitch(fc.wire, want); sym != "" {
+		if sym, desc := judgeSwitch(fc.wire, fc.early, want); sym != "" {
 			c.Report(sym+"/"+scen, desc, cas)
 		}
 	} else if sym, desc := judgeFrom(secret, fc.wire, want, uint64(prior), has(writers, closer)); sym != "" {
@@ -751,6 +766,8 @@ func scenarios(thorough bool) []scenario {
 		// the connection switches to encryption (first encrypted request after pair-verify) while writers are active
 		{[][]int{{switching}, {300}}, -1, 0},
 		{[][]int{{switching}, {300}, {40}}, 2, 0},
+		// … and while the application changes a value (the transport's fan-out walks over all connections)
+		{[][]int{{switching}, {300}, {notify}}, 2, 0},
 		{[][]int{{1500}, {closer}}, -1, 0},
 		{[][]int{{300}, {40}, {closer}}, 2, 0},
 		{[][]int{{300}, {notify}, {closer}}, 2, 0},
@@ -1117,7 +1134,7 @@ func init() {
 	fw.Register(&fw.Check{
 		ID:    "C08",
 		Level: "model_checking",
-		Rule:  "stateless exploration of goroutine interleavings under a cooperative scheduler with iterative preemption bounding: 2–5 writer goroutines × 1–3 Connection.Write calls with one- and two-frame payloads, keep-alive rounds sent by hap.KeepAlive itself, and EVENTs written by the notifyListener of a real (not started) IP transport after an application value change (a boolean, and a 3000-byte string: an EVENT of four frames), over a socket that stalls in the middle of every write (a write deadline armed meanwhile expires for the write in flight), the connection's own reader opening an incoming two-frame request whose ciphertext arrives in five pieces (each arrival a scheduling point) while writes are in flight, and a writer on another connection of the same accessory, on a real hap.Connection with a real secure session; scheduling points = every Lock of a sync.Mutex/RWMutex and every Wait of a sync.Cond in packages hap and crypto (import rewritten to a shim through go build -overlay) and every socket Write; per schedule the captured wire must decrypt front to back with counters in arrival order (reference AEAD) and be a sequence of whole payloads (the same for the other connection's wire), and the reader must get the request intact. 2-writer scenarios unbounded, larger ones preemption bound 2 (thorough: unbounded / 3). Plus the same questions at STATEMENT granularity (subprocess built with a scheduling point before every statement of hc's packages, preemption bound 1 / 2): two writers on one connection, a writer and the reader, writers on two connections, a write that notifies another connection. Also: a connection that switches to encryption — its reader takes the controller's first encrypted request and writes the response — while other writers are active (seen from the accessory: plain messages, then frames, never plain text after the first frame); the 2-writer scenario on a connection that has carried 255 / 65535 (thorough also 256, 65534, 65536) writes before; scenarios in which a third thread closes the connection while writers are active (what reaches the peer before the socket closes must still decrypt in order and be whole payloads plus at most the beginning of one — nothing unencrypted); the object the server's Accept hands to net/http is the one the session holds (responses and events share one write lock); and every sequence of ≤3 (thorough ≤4) SetDeadline / SetReadDeadline / SetWriteDeadline calls through the hap.Connection (net/http's read-deadline calls at the end of every request must not reach the write deadline of a concurrent event write). Plus a free-running pass of the same bodies in a -race build, with one run against a peer that stalls for 3.5 s (real time) in the middle of a write while two more writers arrive. distinct_nontrivial = distinct (scenario, wire record order) outcomes — more than one per scenario means writers really collided",
+		Rule:  "stateless exploration of goroutine interleavings under a cooperative scheduler with iterative preemption bounding: 2–5 writer goroutines × 1–3 Connection.Write calls with one- and two-frame payloads, keep-alive rounds sent by hap.KeepAlive itself, and EVENTs written by the notifyListener of a real (not started) IP transport after an application value change (a boolean, and a 3000-byte string: an EVENT of four frames), over a socket that stalls in the middle of every write (a write deadline armed meanwhile expires for the write in flight), the connection's own reader opening an incoming two-frame request whose ciphertext arrives in five pieces (each arrival a scheduling point) while writes are in flight, and a writer on another connection of the same accessory, on a real hap.Connection with a real secure session; scheduling points = every Lock of a sync.Mutex/RWMutex and every Wait of a sync.Cond in packages hap and crypto (import rewritten to a shim through go build -overlay) and every socket Write; per schedule the captured wire must decrypt front to back with counters in arrival order (reference AEAD) and be a sequence of whole payloads (the same for the other connection's wire), and the reader must get the request intact. 2-writer scenarios unbounded, larger ones preemption bound 2 (thorough: unbounded / 3). Plus the same questions at STATEMENT granularity (subprocess built with a scheduling point before every statement of hc's packages, preemption bound 1 / 2): two writers on one connection, a writer and the reader, writers on two connections, a write that notifies another connection. Also: a connection that switches to encryption — its reader takes the controller's first encrypted request and writes the response — while other writers are active (seen from the accessory: plain messages, then frames, never plain text after the first frame, and no frames before the controller's first encrypted bytes have arrived — also while the application changes a value and the transport's fan-out walks over the connections); the 2-writer scenario on a connection that has carried 255 / 65535 (thorough also 256, 65534, 65536) writes before; scenarios in which a third thread closes the connection while writers are active (what reaches the peer before the socket closes must still decrypt in order and be whole payloads plus at most the beginning of one — nothing unencrypted); the object the server's Accept hands to net/http is the one the session holds (responses and events share one write lock); and every sequence of ≤3 (thorough ≤4) SetDeadline / SetReadDeadline / SetWriteDeadline calls through the hap.Connection (net/http's read-deadline calls at the end of every request must not reach the write deadline of a concurrent event write). Plus a free-running pass of the same bodies in a -race build, with one run against a peer that stalls for 3.5 s (real time) in the middle of a write while two more writers arrive. distinct_nontrivial = distinct (scenario, wire record order) outcomes — more than one per scenario means writers really collided",
 		Shards: func(t string) int {
 			if t == "thorough" {
 				return 16
